@@ -132,6 +132,17 @@ def hypot(x, y):
     return _sqrt(SymReal(xx * xx + yy * yy))
 
 
+def copysign(x, y):
+    if not (_sym(x) or _sym(y)):
+        return _m.copysign(x, y)
+    mag = abs(x) if _sym(x) else _m.fabs(x)
+    if _sym(y):
+        neg = ctx().decide(_toreal(y.e) < 0)  # (a symbolic real has no negative zero)
+    else:
+        neg = _m.copysign(1.0, y) < 0
+    return -mag if neg else mag
+
+
 def fabs(x):
     if not _sym(x):
         return _m.fabs(x)
